@@ -511,6 +511,17 @@ public:
     double* SX=buffer+offset;
     double alpha;
     double range = t_end - t_start;
+    //time averages of sin(alpha*t) and cos(alpha*t) over [t_start,t_end]. When
+    //alpha*range vanishes (coincident levels) the quotient is 0/0; its limit
+    //is the integrand itself.
+    auto avg_sin=[=](double alpha){
+      return (alpha*range==0) ? sin(alpha*t_start) :
+             (cos(alpha*t_start) - cos(alpha*t_end))/(alpha*range);
+    };
+    auto avg_cos=[=](double alpha){
+      return (alpha*range==0) ? cos(alpha*t_start) :
+             (sin(alpha*t_end) - sin(alpha*t_start))/(alpha*range);
+    };
 #include "SU_inc/PreEvolutionSelectAvgRange.txt"
   }
   
